@@ -2,6 +2,7 @@ package main
 
 import (
 	"fmt"
+	"math"
 
 	geom "github.com/twpayne/go-geom"
 	"github.com/twpayne/go-geom/xy"
@@ -34,8 +35,32 @@ func layoutForStride(s int) geom.Layout {
 	return geom.Layout(s)
 }
 
+// negZeros: which zero ordinates of the next case are written as -0 (the same number as +0); bit k of
+// the counter decides for the k-th zero met.
+var negZeroCounter uint64
+
 func emitLocate(e *Emitter, stride int, p geom.Coord, ring []float64) {
 	l := layoutForStride(stride)
+	negZeroCounter = negZeroCounter*6364136223846793005 + 1442695040888963407
+	if negZeroCounter>>60 < 4 { // a quarter of the cases
+		bits := negZeroCounter
+		flip := func(v float64) float64 {
+			if v == 0 {
+				bits = bits*2862933555777941757 + 3037000493
+				if bits>>63 == 1 {
+					return math.Copysign(0, -1)
+				}
+				return 0
+			}
+			return v
+		}
+		ring = append([]float64{}, ring...)
+		p = append(geom.Coord{}, p...)
+		for i := 0; i+1 < len(ring); i += stride {
+			ring[i], ring[i+1] = flip(ring[i]), flip(ring[i+1])
+		}
+		p[0], p[1] = flip(p[0]), flip(p[1])
+	}
 	in := fmt.Sprintf("(%d %s %s)", stride, sxCoord(p), sxCoord(ring))
 	p, ring = slot(0, p...), slot(1, ring...) // caller's buffers reused for every call
 	e.emit("C11.locate", in, guard(func() string {
